@@ -532,7 +532,13 @@ def find_assets(ctx, o):
     fn = _desugar_comprehension(fn)
     g = ctx.B.build_func(S, S, fn)
     ctx.units['graphs'] += 1
-    params = [a.arg for a in fn.args.args][1:]
+    is_static = any(ast.unparse(d) in ('staticmethod', 'classmethod') for d in fn.decorator_list)
+    params = [a.arg for a in fn.args.args][(0 if ast.unparse(fn.decorator_list[0]) == 'staticmethod' else 1) if is_static else 1:]
+    if is_static:
+        o.count()
+        o.fail(P, 'System.find_assets', fn.decorator_list[0], 'find_assets is not bound to the system it is called on: it cannot return the assets registered with that system '
+               '(an earlier system, e.g. one returned by simulate_multiple_times, is answered from another registry)', file=S.mod.path, line=fn.lineno)
+        return
     if len(params) != 4:
         raise AnalysisError(f'System.find_assets has parameters {params}; the property names four filters')
     loops = [l for l in ast.walk(fn) if isinstance(l, ast.For)]
